@@ -165,6 +165,16 @@ class Ctx:
             return out
         for i, t in enumerate(traces):
             self.record(t, out[i], nontrivial=nontrivial)
+        # an accepted trace may carry a remark on behaviour specified beyond the listed property (ACCEPT ext=<clause>)
+        beyond = {}
+        for i in range(len(traces)):
+            if out[i].startswith("ACCEPT") and " ext=" in out[i]:
+                c = out[i].split(" ext=", 1)[1].strip()
+                beyond[c] = beyond.get(c, 0) + 1
+        for c, n in sorted(beyond.items()):
+            msg = "%s: %s (%d traces)" % (module, c, n)
+            self.notes.setdefault("extension_violations", []).append(msg)
+            print("EXTENSION-NOTE: property=%s (specified beyond the listed property; not a verdict on it) %s" % (self.pid, msg))
         return out
 
     def record(self, trace, verdict, nontrivial=None):
